@@ -231,6 +231,10 @@ KeyLoop:
 
 	cde = t.GetCurrent()
 	ode = out.GetCurrent()
+	if cde == nil {
+		//null traveler: no fields to select from
+		return out
+	}
 
 	if len(excludePaths) > 0 {
 		cde = excludeFields(cde, excludePaths)
